@@ -328,6 +328,56 @@ def gen_run_scenario(rng, feats, cycles=None):
     return {'tmpls': g.tmpls, 'progs': g.progs, 'comps': g.comps, 'ops': ops, 'fuel': 4000}
 
 
+def gen_shared_wait_pattern(rng):
+    """C06: several handlers in flight wait for one and the same event (by name), with different timeouts, while the awaited
+    event's own generator handlers take several iterations to finish - each waiter gets its own outcome (result or
+    TimeoutError) and none of them loses its resumption to what happened to another one"""
+    r = rng
+    nwait = r.choice([2, 2, 3])
+    slow_steps = r.choice([3, 4, 6, 8])
+    tmpls, progs = [], []
+    # names: 1..nwait = the waiters' events, nwait+1 = the awaited event, nwait+2 = end of the run
+    for i in range(nwait):
+        tmpls.append({'name': str(i + 1), 'flags': r.choice(['', 's', 'c', 'sc']), 'sc': None, 'cc': None})
+    slow = nwait + 1
+    tmpls.append({'name': str(slow), 'flags': r.choice(['', '', 's', 'c']), 'sc': None, 'cc': None})
+    slow_t = len(tmpls) - 1
+    endname = nwait + 2
+    tmpls.append({'name': str(endname), 'flags': '', 'sc': None, 'cc': None})
+    end_t = len(tmpls) - 1
+    handlers = []
+    timeouts = [r.choice([0, 1, 2, 3, 5])] + [r.choice([None, None, 1, 2, 3, 5, 8]) for _ in range(nwait - 1)]
+    r.shuffle(timeouts)
+    for i in range(nwait):
+        prog = []
+        if r.random() < 0.3:
+            prog.append(['yld', r.choice([None, 0, 5])])
+        prog.append(['wait', str(slow), None, timeouts[i], False])
+        prog.append(['yld', r.choice([0, 1, 7])])
+        progs.append(prog)
+        handlers.append({'names': [str(i + 1)], 'chan': None, 'prio': r.choice([0, 0, 1]), 'prog': len(progs) - 1, 'installed': True})
+    # the awaited event: one or two generator handlers that need several iterations, maybe a plain one as well
+    for _ in range(r.choice([1, 1, 2])):
+        steps = [['yld', r.choice([None, 2, 3])] for _ in range(slow_steps)]
+        if r.random() < 0.2:
+            steps.insert(r.randint(1, len(steps)), ['raise'])
+        progs.append(steps)
+        handlers.append({'names': [str(slow)], 'chan': None, 'prio': 0, 'prog': len(progs) - 1, 'installed': True})
+    if r.random() < 0.4:
+        progs.append([['ret', 9]])
+        handlers.append({'names': [str(slow)], 'chan': None, 'prio': r.choice([0, 2]), 'prog': len(progs) - 1, 'installed': True})
+    # started: create the timers, fire the waiters' events
+    timers = [{'interval': r.choice([1, 1, 2, 3]), 'persist': False, 'tmpl': slow_t, 'target': None, 'parent': 0},
+              {'interval': 60, 'persist': False, 'tmpl': end_t, 'target': None, 'parent': 0}]
+    acts = [['timerNew', 1], ['timerNew', 0]] + [['fire', i, None, 0, False] for i in range(nwait)]
+    progs.append(acts)
+    handlers.append({'names': ['903'], 'chan': None, 'prio': 0, 'prog': len(progs) - 1, 'installed': True})
+    progs.append([['stopMgr', 0, None]])
+    handlers.append({'names': [str(endname)], 'chan': None, 'prio': 0, 'prog': len(progs) - 1, 'installed': True})
+    comps = [{'chan': '*', 'handlers': handlers, 'timer': None}] + [{'chan': '*', 'handlers': [], 'timer': t} for t in timers]
+    return {'tmpls': tmpls, 'progs': progs, 'comps': comps, 'ops': [['run', 0]], 'fuel': 4000}
+
+
 # ------------------------------------------------------------------------------------------
 # directed patterns (C01 / C07): "act as root -> become child -> gain descendants or handlers -> detach -> dispatch"
 # ------------------------------------------------------------------------------------------
